@@ -71,7 +71,7 @@ package controller
 // saltAuthToken for that remote - its header, and its path and query string in
 // the outgoing URL (never those of the original request, which may still carry
 // the unsalted api_token parameter).
-//@ func Handler.remoteClusterRequest property C19 safety -nil
+//@ func Handler.remoteClusterRequest property C19,C18 safety -nil
 //@   ghost sreq *http.Request = nil
 //@   calls Handler.saltAuthToken#1: requires $0 == req && $1 == remoteID
 //@   calls Handler.saltAuthToken#1: set sreq = $r0
